@@ -42,6 +42,9 @@ pub struct Scope {
     pub lend: bool,
     /// the arena is created with a pacing that leaves no sleep allowance at all (min_sleep 0, sleep_factor 0)
     pub zero_sleep: bool,
+    /// all work factors zero (`Pacing::STOP_THE_WORLD`): debt-driven calls never stop mid-phase, but the explicit
+    /// phase calls (finish_marking, mark_debt, start_sweeping) still leave the arena Marked / Sweeping between callbacks
+    pub stw: bool,
     /// track the garbage that existed when the cycle woke: it must be destructed by the end of THAT cycle (non-wrapping scopes)
     pub exact_cycle: bool,
     /// integer metric counters are part of the canonical state
@@ -93,6 +96,7 @@ pub const BASE: Scope = Scope {
     handles: 0,
     lend: false,
     zero_sleep: false,
+    stw: false,
     exact_cycle: false,
     metrics_canon: false,
     born_canon: false,
@@ -130,6 +134,8 @@ pub fn scope(name: &str) -> Option<Scope> {
         "S3wx" => Scope { name: "S3wx", n: 3, r: 1, k: 1, copyroot: false, wrap: false, exact_cycle: true, ..BASE },
         "S2w" => Scope { name: "S2w", n: 2, r: 1, k: 1, ..BASE },
         // barrier paths
+        // the barrier and cell alphabets under stop-the-world pacing
+        "S2bz" => Scope { name: "S2bz", n: 2, r: 1, k: 1, barrier: true, cells: false, stw: true, ..BASE },
         "S2b" => Scope { name: "S2b", n: 2, r: 1, k: 1, barrier: true, cells: false, ..BASE },
         "S2bc" => Scope { name: "S2bc", n: 3, r: 1, k: 1, weak: false, upgrade_ops: false, copyroot: false, graph: false, wrap: false, cells: true, ..BASE },
         "S2bcw" => Scope { name: "S2bcw", n: 3, r: 1, k: 1, weak: true, upgrade_ops: false, copyroot: false, graph: false, wrap: false, cells: true, ..BASE },
